@@ -625,6 +625,9 @@ class AlignedArrays:
     def last(self) -> AlignedArrays:
         from flox.core import chunk_reduce
 
+        if self.group_idx.size == 0:
+            # nothing seen yet (zero-length blocks only): chunk_reduce would hand back a float NaN placeholder label, not a code
+            return self
         reduced = chunk_reduce(
             self.array,
             self.group_idx,
@@ -673,7 +676,7 @@ def scan_binary_op(left_state: ScanState, right_state: ScanState, *, agg: Scan) 
             left.array,
             from_=pd.Index(left.group_idx),
             # can't use right.group_idx since we need to do the indexing later
-            to=pd.RangeIndex(right.group_idx.max() + 1),
+            to=pd.RangeIndex(right.group_idx.max(initial=-1) + 1),
             fill_value=agg.identity,
             axis=-1,
         )
